@@ -284,6 +284,49 @@ class Ordered:
         return hash(self.n)
 
 
+HASH_REFUSED = [False]
+
+
+class HKey:
+    """A totally ordered key that is NOT hashable while HASH_REFUSED[0] is
+    set (the object-keyed families only require ordering: keys need no
+    __hash__).  The harness and its oracles hash freely outside the call
+    under test."""
+    __slots__ = ('n',)
+
+    def __init__(self, n):
+        self.n = n
+
+    def __repr__(self):
+        return 'HKey(%r)' % (self.n,)
+
+    def __reduce__(self):
+        return (HKey, (self.n,))
+
+    def __hash__(self):
+        if HASH_REFUSED[0]:
+            raise TypeError("unhashable type: 'HKey'")
+        return hash(self.n)
+
+    def __eq__(self, o):
+        return isinstance(o, HKey) and self.n == o.n
+
+    def __ne__(self, o):
+        return not self.__eq__(o)
+
+    def __lt__(self, o):
+        return self.n < o.n
+
+    def __le__(self, o):
+        return self.n <= o.n
+
+    def __gt__(self, o):
+        return self.n > o.n
+
+    def __ge__(self, o):
+        return self.n >= o.n
+
+
 class Plain:
     """Default comparison: not acceptable as an object key."""
     def __repr__(self):
